@@ -25,9 +25,21 @@ def run_job(job):
     from lv import monitor
     from lv.rigs.virt import VirtRig
     cfg = job['cfg']
+    storage, tmpd = None, None
+    if job.get('local_storage') and cfg['storage']:
+        # the real LocalStorage instead of the in-memory one (slower; used where the storage's own code matters)
+        import tempfile
+        import labtech
+        tmpd = tempfile.mkdtemp(prefix='ls_', dir=os.environ.get('TMPDIR'))
+        storage = labtech.storage.LocalStorage(os.path.join(tmpd, 'st'))
     rig = VirtRig(cfg, job.get('schedule') or [], shape_seed=job.get('shape_seed', 0), beh=_beh(job.get('beh')),
-                  int_lines=job.get('int_lines'), count_lines=job.get('count_lines', False))
-    trace = rig.run()
+                  int_lines=job.get('int_lines'), count_lines=job.get('count_lines', False), storage=storage)
+    try:
+        trace = rig.run()
+    finally:
+        if tmpd:
+            import shutil
+            shutil.rmtree(tmpd, ignore_errors=True)
     out = monitor.to_monitor(job['id'], cfg, trace, caller_pid=os.getpid(), ctxkeys=ctxkeys_for(cfg))
     out['meta'] = {'skipped': rig.skipped, 'defaulted': rig.defaulted, 'lines': rig.line_count,
                    'ints': rig.ints_done, 'events': len(trace),
